@@ -377,6 +377,7 @@ PROTOS = {
     "xyz int11/double/const": [("CartesianX", ("Integer", -5, 2000)), ("CartesianY", ("Double",)), ("CartesianZ", ("Integer", 7, 7))],
     "xyz single/scaled33/int1": [("CartesianX", ("Single",)), ("CartesianY", ("ScaledInteger", -(1 << 32), 5, 0.001, 2.0)), ("CartesianZ", ("Integer", 0, 1))],
     "xyz int64 full range": [("CartesianX", ("Integer", -(1 << 63), (1 << 63) - 1)), ("CartesianY", ("Integer", 0, 255)), ("CartesianZ", ("Integer", -1, 0))],
+    "xyz all constant (no stored bits)": [("CartesianX", ("Integer", 5, 5)), ("CartesianY", ("Integer", -1, -1)), ("CartesianZ", ("ScaledInteger", 7, 7, 0.5, 1.0))],
     "xyz + rgb of three different ranges + u16 intensity": [("CartesianX", ("Single",)), ("CartesianY", ("Single",)), ("CartesianZ", ("Single",)),
                                                           ("ColorRed", ("Integer", 0, 255)), ("ColorGreen", ("Integer", 0, 65535)), ("ColorBlue", ("Integer", 16, 1023)),
                                                           ("Intensity", ("ScaledInteger", -50, 4000, 0.25, 1.0))],
